@@ -16,6 +16,7 @@ def generate(rng, tier='quick', **kw):
   ops = []
   t = 0.0
   empties = set()
+  late = rng.random() < 0.4        # some Puts time out, their replies arrive late, new Puts in between
   n = rng.randint(1, 30 if tier == 'quick' else 80)
   for i in range(n):
     r = rng.random()
@@ -45,8 +46,8 @@ def generate(rng, tier='quick', **kw):
       payloads[0] = ('c%d|' % i).encode().hex() + payloads[0]
     ops.append({'t': round(t, 5), 'op': 'put', 'id': 'c%d' % i, 'topic': topic,
                 'payloads': payloads, 'acks': rng.choice([1, 1, 1, -1, 0]) if payloads else 1,
-                'timeout': rng.choice([0.5, 2.0]),
-                'svc': {'delay': rng.choice([0.001, 0.005, 0.02, 0.08]),
+                'timeout': rng.choice([0.05, 0.5, 2.0]) if late else rng.choice([0.5, 2.0]),
+                'svc': {'delay': rng.choice([0.001, 0.005, 0.02, 0.08, 0.08, 0.15]) if late else rng.choice([0.001, 0.005, 0.02, 0.08]),
                         'error': rng.choice([0, 0, 0, 0, 0, 2, 7, 6])}})
   return {'world': 'w_kafka', 'brokers': n_brokers, 'topics': topics, 'ops': ops,
           'bootstrap': sorted(rng.sample(range(n_brokers), rng.randint(1, n_brokers))),
